@@ -192,7 +192,7 @@ def c20_judge(proj, runs):
                 elif tags != want_tags:
                     bad.append({"run": r["kind"], "seed": r["seed"], "clause": "top_level_once",
                                 "detail": f"tags {tags} want {want_tags}"})
-                elif result != [f'RESULT {proj["expect"]["result"]}']:
+                elif proj["expect"].get("result") is not None and result != [f'RESULT {proj["expect"]["result"]}']:
                     bad.append({"run": r["kind"], "seed": r["seed"], "clause": "declared_values",
                                 "detail": f'{result} want RESULT {proj["expect"]["result"]}'})
     return bad
@@ -223,9 +223,30 @@ def judge(prop, proj, runs):
     return c20_judge(proj, runs)
 
 
+def _template(detail):
+    """the shape of a detail text: numbers and generated identifiers abstracted away"""
+    import re
+    t = str(detail)
+    t = re.sub(r"\b(m|v|s|f|g|w|C|u_|o_|_p|_q|_l|x|y|n)[A-Za-z_]*\d+\w*", "ID", t)
+    t = re.sub(r"\d+", "N", t)
+    return t[:160]
+
+
 def signature(prop, proj, bad):
-    """violation class of a project: the oracle clauses that failed (sorted, de-duplicated)"""
-    return sorted({b["clause"] for b in bad})
+    """violation class of a project: the oracle clauses that failed, each with the shape of its
+    detail (so that minimisation cannot drift to a different failure of the same clause)"""
+    out = set()
+    for b in bad:
+        if b["clause"] in ("bytecode", "class"):
+            out.add(b["clause"] + ":" + _template(b.get("detail") if b["clause"] == "class" else ""))
+        elif b["clause"] == "diagnostics":
+            out.add("diagnostics")
+        elif b["clause"] == "spurious_error":
+            for part in str(b.get("detail", "")).split(" | "):
+                out.add("spurious_error:" + _template(part))
+        else:
+            out.add(b["clause"] + ":" + _template(b.get("detail", "")))
+    return sorted(out)
 
 
 def explore_one(prop, seed, idx, k, w, d):
@@ -279,48 +300,117 @@ def minimise(prop, proj, seeds, bad, w, d, budget_s=120):
     bad = b2
     cur = json.loads(json.dumps(proj))
 
-    # 2. drop whole modules that nobody imports any more / that are leaves
-    def without_module(p, m):
+    def importers(p, m):
+        return [f for f, t in p["files"].items() if f != m + ".er" and f'import "{m}"' in t]
+
+    def drop_unimported(p):
         q = json.loads(json.dumps(p))
-        del q["files"][m + ".er"]
-        q["tags"] = [t for t in q["tags"] if t != m]
-        for f, text in list(q["files"].items()):
-            lines = [l for l in text.split("\n")
-                     if f"{m}." not in l and f'import "{m}"' not in l and f"_{m}_" not in l]
-            q["files"][f] = "\n".join(lines)
-        q["graph"] = {k: [x for x in v if x != m] for k, v in q["graph"].items() if k != m}
-        q["expect"] = {"result": None}
+        again = True
+        while again:
+            again = False
+            for m in [t for t in q["tags"] if t != "main"]:
+                if not importers(q, m):
+                    del q["files"][m + ".er"]
+                    q["tags"] = [t for t in q["tags"] if t != m]
+                    q["graph"] = {k: [x for x in v if x != m] for k, v in q.get("graph", {}).items() if k != m}
+                    again = True
         return q
+
+    # 3. drop definitions nobody refers to (so that no new error can be introduced), asserts,
+    #    and terms of main's checksum; repeat to a fixpoint
+    import re
+
+    def units(p):
+        """(file, [line indices]) groups that may be removed together"""
+        out = []
+        for f, text in p["files"].items():
+            lines = text.split("\n")
+            mod = f[:-3]
+            byname = {}
+            i = 0
+            while i < len(lines):
+                l = lines[i]
+                mm = re.match(r"^\.?([A-Za-z_][\w!]*)", l)
+                if l.startswith("assert "):
+                    out.append((f, [i], None))
+                elif re.match(r'^(\w+) = (py)?import "', l):
+                    out.append((f, [i], "import:" + re.match(r"^(\w+) = ", l).group(1)))
+                elif l.startswith("print! ") or l.startswith("result: ") or not mm:
+                    pass
+                else:
+                    name = mm.group(1)
+                    idxs = [i]
+                    # a class: `.C = Class ...`, `.C.` and the indented method lines
+                    j = i + 1
+                    while j < len(lines) and (lines[j].startswith("    ") or lines[j].startswith("." + name + ".")):
+                        idxs.append(j)
+                        j += 1
+                    byname.setdefault(name, []).extend(idxs)
+                    i = j - 1
+                i += 1
+            for name, idxs in byname.items():
+                out.append((f, sorted(set(idxs)), name))
+        return out
+
+    def referenced(p, f, idxs, name):
+        if name is None:
+            return False
+        if name.startswith("import:"):
+            alias = name[len("import:"):]
+            return any(re.search(r"\b%s\." % re.escape(alias), l)
+                       for k, l in enumerate(p["files"][f].split("\n")) if k not in idxs)
+        mod = f[:-3]
+        for g, text in p["files"].items():
+            for k, l in enumerate(text.split("\n")):
+                if g == f and k in idxs:
+                    continue
+                if g == f and re.search(r"(?<![\w.])\.?%s\b" % re.escape(name), l):
+                    return True
+                if g != f and re.search(r"\b%s\.%s\b" % (mod, re.escape(name)), l):
+                    return True
+        return False
 
     changed = True
     while changed and time.time() < t_end:
         changed = False
-        for m in [t for t in cur["tags"] if t != "main"][::-1]:
-            q = without_module(cur, m)
+        for f, idxs, name in units(cur):
+            if time.time() > t_end:
+                break
+            if referenced(cur, f, idxs, name):
+                continue
+            q = json.loads(json.dumps(cur))
+            lines = q["files"][f].split("\n")
+            q["files"][f] = "\n".join(l for k, l in enumerate(lines) if k not in idxs)
+            q["expect"] = {"result": None}
+            q = drop_unimported(q)
             ok, b2 = still_fails(prop, q, seeds, w, d, sig)
             if ok:
                 cur, bad, changed = q, b2, True
                 break
-    # 3. drop lines, file by file
-    for f in sorted(cur["files"]):
-        if time.time() > t_end:
-            break
-        lines = cur["files"][f].split("\n")
-        keep_idx = list(range(len(lines)))
-
-        def test(sub, f=f, lines=lines):
-            if time.time() > t_end:
-                return False
-            q = json.loads(json.dumps(cur))
-            q["files"][f] = "\n".join(lines[i] for i in sub)
-            q["expect"] = {"result": None}
-            ok, _ = still_fails(prop, q, seeds, w, d, sig)
-            return ok
-
-        kept = ddmin(keep_idx, test, max_tests=60)
-        if len(kept) < len(lines):
-            cur["files"][f] = "\n".join(lines[i] for i in kept)
-            cur["expect"] = {"result": None}
+        if changed:
+            continue
+        # terms of the checksum line
+        for f, text in cur["files"].items():
+            for k, l in enumerate(text.split("\n")):
+                if not l.startswith("result: Int = "):
+                    continue
+                terms = l[len("result: Int = "):].split(" + ")
+                for ti in range(len(terms)):
+                    if len(terms) <= 1 or time.time() > t_end:
+                        break
+                    q = json.loads(json.dumps(cur))
+                    ls = q["files"][f].split("\n")
+                    ls[k] = "result: Int = " + " + ".join(t for j, t in enumerate(terms) if j != ti)
+                    q["files"][f] = "\n".join(ls)
+                    q["expect"] = {"result": None}
+                    ok, b2 = still_fails(prop, q, seeds, w, d, sig)
+                    if ok:
+                        cur, bad, changed = q, b2, True
+                        break
+                if changed:
+                    break
+            if changed:
+                break
     ok, b2 = still_fails(prop, cur, seeds, w, d, sig)
     if ok:
         bad = b2
@@ -364,10 +454,20 @@ def shape_predicates(proj):
                 outside = True
     has_class_in_cycle = any("Class" in proj["files"][m + ".er"] for m in members)
     typed_pub_in_cycle = any(re.search(r"^\.\w+: ", proj["files"][m + ".er"], re.M) for m in members)
+    # an importer refers to a cycle member inside a definition (public binding or function body)
+    member_in_def = False
+    for f, text in proj["files"].items():
+        for line in text.split("\n"):
+            if line.startswith(".") and any(re.search(r"\b%s\." % m, line.split("=", 1)[-1]) for m in members if m != f[:-3]):
+                member_in_def = True
+    single_clause_fn_in_cycle = any(
+        re.search(r"^\.\w+\(\w+: \w+\)[^=]*= .*\b\w+\.\w+\(", proj["files"][m + ".er"], re.M) for m in members)
     return {
         "has_cycle": bool(members), "has_cycle_ge3": cyc_len >= 3,
         "cycle_member_imported_from_outside": outside,
         "rich_cycle": bool(members) and (has_class_in_cycle or typed_pub_in_cycle or proj.get("flags", {}).get("rich_cycle", False)),
+        "cycle_beyond_corpus_style": bool(members) and (has_class_in_cycle or typed_pub_in_cycle or member_in_def
+                                                          or single_clause_fn_in_cycle),
         "poly": bool(re.search(r"^\.(id|tw)\w+ ", "\n".join(proj["files"].values()), re.M)),
         "modules": len(proj["files"]),
     }
@@ -378,7 +478,7 @@ def match_known(prop, proj, sig, bad, known):
     details = " ".join(str(b.get("detail", "")) for b in bad)
     for e in known:
         m = e.get("match", {})
-        if m.get("clauses") and not (set(sig) <= set(m["clauses"])):
+        if m.get("clauses") and not all(any(x.startswith(c) for c in m["clauses"]) for x in sig):
             continue
         if any(not preds.get(p) for p in m.get("predicates", [])):
             continue
@@ -411,6 +511,9 @@ def run_check(prop, tier, seed, replay=None):
             raise HarnessError("same seed gave different event-log hashes")
         failing = [r for r in results if r["bad"]]
         log(f"[{prop}] {len(results)} projects, {len(failing)} with oracle failures; minimising")
+        for r in failing[:40]:
+            log(f'   project {r["idx"]} shape={r["proj"]["shape"]} flags={[k for k, v in r["proj"]["flags"].items() if v]} '
+                f'{signature(prop, r["proj"], r["bad"])}')
         # minimise (in parallel, bounded), then classify
         def mini(r, w, d):
             seeds = schedule_seeds(seed, prop, r["idx"], k)
@@ -530,7 +633,7 @@ def replay_file(prop, path, report):
     finally:
         pool.close()
     sig = signature(prop, proj, bad) if bad else []
-    if bad and set(sig) & set(rp["expect"]["clauses"]):
+    if bad and {x.split(":")[0] for x in sig} & {x.split(":")[0] for x in rp["expect"]["clauses"]}:
         print(f"VIOLATION property={prop} replay={path}")
         print(f"  reproduced: clauses={sig} first={json.dumps(bad[0])[:300]}")
         return 1
